@@ -20,7 +20,7 @@ def plan(tier):
     if tier == "quick":
         return [("debug", 16, dict(n=50, rows=30, big=True, arch=3)), ("release", 4, dict(n=30, rows=30, big=True, arch=2))]
     return [("debug", 16, dict(n=1200, rows=40, big=True, arch=30)), ("release", 8, dict(n=500, rows=40, big=True, arch=12)),
-            ("asan", 4, dict(n=80, rows=25, big=False, arch=3))]
+            ("asan", 4, dict(n=80, rows=25, big=False, arch=3)), ("memcheck", 2, dict(n=10, rows=12, big=False, arch=1))]
 
 
 def gen_schema(rng):
